@@ -794,3 +794,1496 @@ def _may_glue(a, b):
     if x in '<>:=|' or y in '<>:=|':
         return _wordy(y) and x in ':=' and a in (':=', ':') or (_wordy(x) and b in (':=', ':'))
     return True
+
+
+# ------------------------------------------------------------------ items
+class Item(object):
+    """one construct under test + the declarations that carry it"""
+
+    def __init__(self, kind, decls, host='', nested=None, interfaces=(), lib=()):
+        self.kind = kind
+        self.decls = list(decls)          # schema-level declaration trees of the main schema
+        self.host = host
+        self.nested = nested or {}        # algorithm name -> [declaration trees local to it]
+        self.interfaces = list(interfaces)  # ('use'|'reference', schema, items) of the main schema
+        self.lib = list(lib)              # declarations that live in the library schema
+
+
+class Ctx(object):
+    def __init__(self, rnd, tag=''):
+        self.rnd = rnd
+        self.n = 0
+        self.tag = tag
+
+    def nm(self, prefix, long_ok=True):
+        self.n += 1
+        r = self.rnd
+        mid = ''
+        if long_ok and r.random() < 0.25:
+            mid = '_' + ''.join(r.choice('abcdefghijklmnopqrstuvwxyz_') for _ in range(r.choice([3, 8, 20, 34]))).strip('_')
+            mid = mid.replace('__', '_')
+        return '%s%s%s_%d' % (prefix, self.tag, mid, self.n)
+
+
+FPARAMS = ((False, 'i1', INT), (False, 'i2', INT), (False, 'r1', REAL), (False, 'r2', REAL), (False, 'b1', BOOL),
+           (False, 'b2', BOOL), (False, 's1', STR), (False, 's2', STR), (False, 'li', LIST_INT), (False, 'ls', LIST_STR),
+           (False, 'bn', BINT))
+FLOCALS = (('vi', INT, None), ('vr', REAL, None), ('vb', BOOL, None), ('vl', LOG, None), ('vs', STR, None),
+           ('vli', LIST_INT, None), ('vbn', BINT, None))
+EATTRS = tuple((V(n), False, t) for _, n, t in FPARAMS)
+LOCAL_OF = {'int': 'vi', 'real': 'vr', 'bool': 'vb', 'log': 'vl', 'str': 'vs', 'list': 'vli', 'bin': 'vbn'}
+TYPE_OF = {'int': INT, 'real': REAL, 'bool': BOOL, 'log': LOG, 'str': STR, 'list': LIST_INT, 'bin': BINT}
+
+SAFE_REALS = (0.5, 1.5, 2.25, 3.75, 0.125, 10.5, 99.75, 1234.5)
+SAFE_STRS = ('a', 'abc', 'hello world', 'x_y', 'Mixed Case', '12', 'p q r')
+
+
+def atom(ctx, ty, env):
+    r = ctx.rnd
+    lit = env == 'none' or r.random() < 0.3
+    if ty == 'int':
+        if lit:
+            return I(r.choice([0, 1, 2, 3, 7, 10, 42, 100, 65535]))
+        c = ['i1', 'i2'] + (['vi'] if env == 'func' else [])
+        return V(r.choice(c))
+    if ty == 'real':
+        if lit:
+            return RL(r.choice(SAFE_REALS))
+        return V(r.choice(['r1', 'r2'] + (['vr'] if env == 'func' else [])))
+    if ty == 'bool':
+        if lit:
+            return r.choice([TRUE, FALSE])
+        return V(r.choice(['b1', 'b2'] + (['vb'] if env == 'func' else [])))
+    if ty == 'str':
+        if lit:
+            return S(r.choice(SAFE_STRS))
+        return V(r.choice(['s1', 's2'] + (['vs'] if env == 'func' else [])))
+    if ty == 'list':
+        if lit:
+            return ('agg', tuple((I(r.randrange(2, 50)), None) for _ in range(r.randrange(1, 4))))
+        return V(r.choice(['li'] + (['vli'] if env == 'func' else [])))
+    raise ValueError(ty)
+
+
+def gen(ctx, ty, depth, env):
+    r = ctx.rnd
+    if depth <= 0 or r.random() < 0.15:
+        return atom(ctx, ty, env)
+    g = lambda t: gen(ctx, t, depth - 1, env)
+    if ty == 'int':
+        c = r.randrange(9)
+        if c < 5:
+            return OP(r.choice(['+', '-', '*', 'div', 'mod']), g('int'), g('int'))
+        if c == 5:
+            return UN('-', g('int'))
+        if c == 6:
+            return CALL('abs', g('int'))
+        if c == 7 and env != 'none':
+            return CALL('sizeof', g('list'))
+        return OP('**', atom(ctx, 'int', env), I(r.choice([2, 3])))
+    if ty == 'real':
+        c = r.randrange(7)
+        if c < 4:
+            return OP(r.choice(['+', '-', '*', '/']), g('real'), g('real'))
+        if c == 4:
+            return UN('-', g('real'))
+        if c == 5:
+            return CALL(r.choice(['sqrt', 'sin', 'cos', 'abs']), g('real'))
+        return OP('*', g('real'), g('int'))
+    if ty == 'bool':
+        c = r.randrange(8)
+        if c < 3:
+            return OP(r.choice(['and', 'or', 'xor']), g('bool'), g('bool'))
+        if c == 3:
+            return UN('not', g('bool'))
+        if c < 6:
+            t = r.choice(['int', 'real'])
+            return OP(r.choice(['<', '>', '<=', '>=', '=', '<>']), g(t), g(t))
+        if c == 6:
+            return OP(r.choice(['=', '<>']), g('str'), g('str'))
+        if env == 'none':
+            return OP('like', g('str'), S('a*'))
+        return OP('in', g('int'), g('list'))
+    if ty == 'str':
+        return OP('+', g('str'), g('str'))
+    if ty == 'list':
+        if r.random() < 0.5:
+            return OP('+', g('list'), g('list'))
+        return ('agg', tuple((g('int'), None) for _ in range(r.randrange(1, 4))))
+    raise ValueError(ty)
+
+
+def mk_func(name, stmts, ret=INT, extra_locals=(), retval=None, params=FPARAMS):
+    body = tuple(stmts)
+    if retval is not False:
+        body += (('return', retval if retval is not None else V('vi')),)
+    return ('function', name, tuple(params), ret, tuple(FLOCALS) + tuple(extra_locals), body)
+
+
+def mk_proc(name, stmts, params=None, extra_locals=()):
+    params = FPARAMS if params is None else params
+    return ('procedure', name, tuple(params), None, tuple(FLOCALS) + tuple(extra_locals), tuple(stmts))
+
+
+def mk_entity(name, attrs=EATTRS, derive=(), inverse=(), unique=(), wh=(), abstract=False, sup=None, subs=()):
+    return ('entity', name, abstract, sup, tuple(subs), tuple(attrs), tuple(derive), tuple(inverse), tuple(unique), tuple(wh))
+
+
+HOSTS = {
+    'func': ['assign', 'return', 'local-init', 'call-arg', 'if-cond', 'repeat-bound', 'case-selector', 'index'],
+    'ent': ['derive', 'where-ent'],
+    'none': ['const', 'type-where'],
+}
+HOST_TYPES = {'if-cond': ('bool',), 'where-ent': ('bool',), 'type-where': ('bool',), 'repeat-bound': ('int',),
+              'case-selector': ('int',), 'index': ('int',)}
+
+
+def pick_host(ctx, ty, envs=('func', 'ent', 'none')):
+    r = ctx.rnd
+    env = r.choice(envs)
+    hs = [h for h in HOSTS[env] if ty in HOST_TYPES.get(h, (ty,))]
+    if ty in ('log', 'bin'):
+        hs = [h for h in hs if h in ('assign', 'const', 'derive', 'return', 'local-init')]
+    return env, r.choice(hs)
+
+
+def place(ctx, kind, ty, e, env, host):
+    """wrap expression e (of type ty, built for env) into a host declaration"""
+    T = TYPE_OF[ty]
+    if host == 'assign':
+        return Item(kind, [mk_func(ctx.nm('f'), [('assign', V(LOCAL_OF[ty]), e)])], host)
+    if host == 'return':
+        return Item(kind, [mk_func(ctx.nm('f'), [], ret=T, retval=e)], host)
+    if host == 'local-init':
+        return Item(kind, [mk_func(ctx.nm('f'), [], extra_locals=[(ctx.nm('x', False), T, e)])], host)
+    if host == 'call-arg':
+        fn = {'int': 'abs', 'real': 'sqrt', 'bool': 'exists', 'str': 'length', 'list': 'sizeof'}.get(ty, 'exists')
+        tgt = {'int': 'vi', 'real': 'vr', 'bool': 'vb', 'str': 'vi', 'list': 'vi'}.get(ty, 'vb')
+        return Item(kind, [mk_func(ctx.nm('f'), [('assign', V(tgt), CALL(fn, e))])], host)
+    if host == 'if-cond':
+        return Item(kind, [mk_func(ctx.nm('f'), [('if', e, (('assign', V('vi'), I(2)),), ())])], host)
+    if host == 'repeat-bound':
+        return Item(kind, [mk_func(ctx.nm('f'), [('repeat', ('k', I(2), e, I(1)), None, None,
+                                                  (('assign', V('vi'), OP('+', V('vi'), V('k'))),))])], host)
+    if host == 'case-selector':
+        return Item(kind, [mk_func(ctx.nm('f'), [('case', e, (((I(2),), ('assign', V('vi'), I(3))),), ('skip',))])], host)
+    if host == 'index':
+        return Item(kind, [mk_func(ctx.nm('f'), [('assign', V('vi'), ('index', V('li'), e))])], host)
+    if host == 'derive':
+        return Item(kind, [mk_entity(ctx.nm('e'), derive=[(V(ctx.nm('d', False)), T, e)])], host)
+    if host == 'where-ent':
+        return Item(kind, [mk_entity(ctx.nm('e'), wh=[(ctx.nm('wr', False), e)])], host)
+    if host == 'const':
+        return Item(kind, [('constant', ctx.nm('c'), T, e)], host)
+    if host == 'type-where':
+        return Item(kind, [('type', ctx.nm('t'), INT, ((ctx.nm('wr', False), OP('or', OP('>', SELF, I(2)), e)),))], host)
+    raise ValueError(host)
+
+
+KINDS = {}
+
+
+def kind(name, weight=1):
+    def deco(f):
+        KINDS[name] = (f, weight)
+        return f
+    return deco
+
+
+def expr_kind(name, ty, envs=('func', 'ent', 'none'), weight=1):
+    """register builder(ctx, env) -> expression of type ty; the host is drawn per item"""
+    def deco(f):
+        def build(ctx):
+            env, host = pick_host(ctx, ty, envs)
+            return place(ctx, name, ty, f(ctx, env), env, host)
+        KINDS[name] = (build, weight)
+        return f
+    return deco
+
+
+# ---- binary operators, one kind each
+OPER_TYPES = {'+': ['int', 'real', 'str', 'list'], '-': ['int', 'real'], '*': ['int', 'real'], '/': ['real'],
+              'div': ['int'], 'mod': ['int'], 'and': ['bool'], 'or': ['bool'], 'xor': ['bool']}
+for _op, _tys in OPER_TYPES.items():
+    for _ty in _tys[:1]:
+        def _mk(op=_op, tys=_tys):
+            def f(ctx, env):
+                ty = f.ty
+                a, b = gen(ctx, ty, ctx.rnd.randrange(2), env), gen(ctx, ty, ctx.rnd.randrange(2), env)
+                return OP(op, a, b)
+            f.ty = tys[0]
+            return f
+        expr_kind('op:' + _op, _tys[0])(_mk())
+
+for _op in ('<', '>', '<=', '>=', '=', '<>'):
+    def _mk(op=_op):
+        def f(ctx, env):
+            t = ctx.rnd.choice(['int', 'real', 'str'] if op in ('=', '<>') else ['int', 'real'])
+            return OP(op, gen(ctx, t, ctx.rnd.randrange(2), env), gen(ctx, t, ctx.rnd.randrange(2), env))
+        return f
+    expr_kind('op:' + _op, 'bool')(_mk())
+
+
+@expr_kind('op:**', 'int')
+def _k(ctx, env):
+    r = ctx.rnd
+    c = r.randrange(3)
+    if c == 0:
+        return OP('**', atom(ctx, 'int', env), I(r.choice([2, 3])))
+    if c == 1:
+        return OP('**', OP('+', atom(ctx, 'int', env), I(2)), atom(ctx, 'int', env))
+    return OP('*', OP('**', atom(ctx, 'int', env), I(2)), atom(ctx, 'int', env))
+
+
+@expr_kind('op:**:nested', 'int')
+def _k(ctx, env):
+    a, b, c = atom(ctx, 'int', env), I(2), I(3)
+    return ctx.rnd.choice([OP('**', OP('**', a, b), c), OP('**', a, OP('**', b, c))])
+
+
+@expr_kind('op:in', 'bool', envs=('func', 'ent'))
+def _k(ctx, env):
+    return OP('in', gen(ctx, 'int', 1, env), gen(ctx, 'list', 1, env))
+
+
+@expr_kind('op:like', 'bool')
+def _k(ctx, env):
+    return OP('like', atom(ctx, 'str', env), S(ctx.rnd.choice(['a*', '?b', '@#', 'x'])))
+
+
+@expr_kind('op::=:', 'bool', envs=('func', 'ent'))
+def _k(ctx, env):
+    return OP(ctx.rnd.choice([':=:', ':<>:']), atom(ctx, 'list', 'ent'), atom(ctx, 'list', 'ent'))
+
+
+@expr_kind('expr:mixed', 'int', weight=3)
+def _k(ctx, env):
+    return gen(ctx, 'int', 3, env)
+
+
+@expr_kind('expr:mixed-bool', 'bool', weight=3)
+def _k(ctx, env):
+    return gen(ctx, 'bool', 3, env)
+
+
+@expr_kind('expr:mixed-real', 'real', weight=2)
+def _k(ctx, env):
+    return gen(ctx, 'real', 3, env)
+
+
+@expr_kind('expr:long', 'int', weight=2)
+def _k(ctx, env):
+    r = ctx.rnd
+    e = atom(ctx, 'int', env)
+    for _ in range(r.randrange(8, 26)):
+        e = OP(r.choice(['+', '-', '*', '+']), e, gen(ctx, 'int', r.randrange(2), env))
+    return e
+
+
+@expr_kind('expr:long-bool', 'bool', weight=2)
+def _k(ctx, env):
+    r = ctx.rnd
+    e = gen(ctx, 'bool', 1, env)
+    for _ in range(r.randrange(5, 14)):
+        e = OP(r.choice(['and', 'or']), e, gen(ctx, 'bool', 1, env))
+    return e
+
+
+def _rn(name, op, ty):
+    @expr_kind(name, ty)
+    def _k(ctx, env):
+        a, b, c = (atom(ctx, 'int' if ty == 'bool' and op == '=' else ty, env) for _ in range(3))
+        if ty == 'bool' and op == '=':
+            return OP('=', atom(ctx, 'bool', env), OP('=', b, c))
+        return OP(op, a, OP(op, b, c))
+
+
+for _op, _ty in (('+', 'int'), ('*', 'int'), ('and', 'bool'), ('or', 'bool'), ('xor', 'bool'), ('=', 'bool'),
+                 ('-', 'int'), ('/', 'real'), ('div', 'int'), ('mod', 'int')):
+    _rn('expr:right-nested:' + _op, _op, _ty)
+
+
+@expr_kind('expr:right-nested:mixed-level', 'int')
+def _k(ctx, env):
+    a, b, c = (atom(ctx, 'int', env) for _ in range(3))
+    o1, o2 = ctx.rnd.choice([('-', '+'), ('+', '-'), ('*', 'div'), ('div', '*'), ('mod', '*'), ('*', 'mod')])
+    return OP(o1, a, OP(o2, b, c))
+
+
+@expr_kind('expr:right-nested:str+', 'str')
+def _k(ctx, env):
+    return OP('+', atom(ctx, 'str', env), OP('+', atom(ctx, 'str', env), atom(ctx, 'str', env)))
+
+
+@expr_kind('expr:left-nested', 'int')
+def _k(ctx, env):
+    a, b, c = (atom(ctx, 'int', env) for _ in range(3))
+    o = ctx.rnd.choice(['-', 'div', 'mod', '+', '*'])
+    return OP(o, OP(o, a, b), c)
+
+
+@expr_kind('expr:rel-nested', 'bool')
+def _k(ctx, env):
+    a, b = atom(ctx, 'int', env), atom(ctx, 'int', env)
+    return OP(ctx.rnd.choice(['=', '<>']), OP(ctx.rnd.choice(['<', '=', '>=']), a, b), atom(ctx, 'bool', env))
+
+
+@expr_kind('expr:lower-in-higher', 'int')
+def _k(ctx, env):
+    a, b, c = (atom(ctx, 'int', env) for _ in range(3))
+    return ctx.rnd.choice([OP('*', OP('+', a, b), c), OP('*', a, OP('-', b, c)), OP('div', OP('-', a, b), c)])
+
+
+@expr_kind('expr:bool-precedence', 'bool')
+def _k(ctx, env):
+    a, b, c = (atom(ctx, 'bool', env) for _ in range(3))
+    return ctx.rnd.choice([OP('and', OP('or', a, b), c), OP('or', a, OP('and', b, c)), OP('and', a, OP('xor', b, c)),
+                           OP('or', OP('and', a, b), c)])
+
+
+# ---- unary
+@expr_kind('unary:-', 'int')
+def _k(ctx, env):
+    return UN('-', V('i1'))
+
+
+@expr_kind('unary:-:literal', 'int')
+def _k(ctx, env):
+    return ctx.rnd.choice([UN('-', I(5)), OP('+', V('i1') if env != 'none' else I(3), UN('-', I(7)))])
+
+
+@expr_kind('unary:+', 'int')
+def _k(ctx, env):
+    return ctx.rnd.choice([UN('+', atom(ctx, 'int', env)), OP('*', I(2), UN('+', I(3)))])
+
+
+@expr_kind('unary:not', 'bool')
+def _k(ctx, env):
+    return ctx.rnd.choice([UN('not', atom(ctx, 'bool', env)), OP('and', UN('not', atom(ctx, 'bool', env)), atom(ctx, 'bool', env))])
+
+
+@expr_kind('unary:nested', 'int')
+def _k(ctx, env):
+    return UN('-', UN('-', atom(ctx, 'int', env)))
+
+
+@expr_kind('unary:not-nested', 'bool')
+def _k(ctx, env):
+    return UN('not', UN('not', atom(ctx, 'bool', env)))
+
+
+@expr_kind('unary:on-op', 'int')
+def _k(ctx, env):
+    return UN('-', OP(ctx.rnd.choice(['+', '*', '-']), atom(ctx, 'int', env), atom(ctx, 'int', env)))
+
+
+@expr_kind('unary:not-on-op', 'bool')
+def _k(ctx, env):
+    return UN('not', OP(ctx.rnd.choice(['and', 'or', '=']), atom(ctx, 'bool', env), atom(ctx, 'bool', env)))
+
+
+@expr_kind('unary:in-exp', 'int')
+def _k(ctx, env):
+    a = atom(ctx, 'int', env)
+    return ctx.rnd.choice([OP('**', UN('-', a), I(2)), UN('-', OP('**', a, I(2))), OP('**', a, UN('-', I(2)))])
+
+
+@expr_kind('unary:operand', 'int')
+def _k(ctx, env):
+    a, b = atom(ctx, 'int', env), atom(ctx, 'int', env)
+    return ctx.rnd.choice([OP('*', a, UN('-', b)), OP('-', a, UN('-', b)), OP('-', UN('-', a), b)])
+
+
+# ---- literals
+def lit_kind(name, ty, values, envs=('func', 'ent', 'none')):
+    @expr_kind(name, ty, envs)
+    def _k(ctx, env):
+        v = ctx.rnd.choice(values)
+        v = v(ctx) if callable(v) else v
+        if ctx.rnd.random() < 0.3 and ty in ('int', 'real'):
+            return OP(ctx.rnd.choice(['+', '*']), atom(ctx, ty, env), v)
+        return v
+
+
+lit_kind('lit:int', 'int', [I(0), I(1), I(7), I(12345), I(999999)])
+lit_kind('lit:int-max', 'int', [I(2147483647)])
+lit_kind('lit:int-over-32bit', 'int', [I(2147483648), I(4294967296), I(12345678901)])
+lit_kind('lit:real-frac', 'real', [RL(0.5), RL(1.25), RL(3.14159), RL(1234.5678), RL(0.001)])
+lit_kind('lit:real-integral', 'real', [RL(1.0), RL(2.0), RL(10.0), RL(100.0), RL(12345.0)])
+lit_kind('lit:real-zero', 'real', [RL(0.0)])
+lit_kind('lit:real-exp-frac', 'real', [RL(1.5e-3), RL(2.5e-10), RL(6.25e-20)])
+lit_kind('lit:real-exp-big', 'real', [RL(2.5e20), RL(1.0e20), RL(6.02e23), RL(1.0e100)])
+lit_kind('lit:real-exp-integral', 'real', [RL(1.5e10), RL(1.0e6), RL(2.0e3)])
+lit_kind('lit:real-17-digits', 'real', [RL(0.12345678901234568), RL(3.1415926535897931), RL(1.0000000000000002)])
+lit_kind('lit:real-tiny', 'real', [RL(1.0e-40), RL(2.5e-300)])
+lit_kind('lit:str', 'str', [S('a'), S('hello world'), S('with "quotes"'), S('semi; colon'), S('(* not a remark *)'), S('-- no')])
+lit_kind('lit:str-empty', 'str', [S('')])
+lit_kind('lit:str-apos', 'str', [S("it's"), S("'"), S("''"), S("a'b'c"), S("trailing'")])
+lit_kind('lit:str-percent', 'str', [S('100%'), S('%s%d%n'), S('50% of %x')])
+lit_kind('lit:str-backslash', 'str', [S('a\\b'), S('\\n'), S('C:\\dir\\')])
+lit_kind('lit:estr', 'str', [('estr', '00000041'), ('estr', '000000C5000000DF'), ('estr', '0000004100000042')])
+lit_kind('lit:bin', 'bin', [('binlit', '1010'), ('binlit', '0'), ('binlit', '1'), ('binlit', '0000111100001111')])
+lit_kind('lit:logical', 'log', [TRUE, FALSE, UNKNOWN])
+lit_kind('lit:indeterminate', 'int', [INDET], envs=('func',))
+lit_kind('lit:const-pi', 'real', [V('pi'), V('const_e'), OP('*', I(2), V('pi'))])
+
+
+def _longstr(ctx, dots, apos, n=None):
+    r = ctx.rnd
+    n = n or r.choice([45, 80, 140, 300])
+    words = []
+    while sum(len(w) + 1 for w in words) < n:
+        w = ''.join(r.choice('abcdefghijklmnopqrstuvwxyz') for _ in range(r.randrange(2, 11)))
+        if apos and r.random() < 0.3:
+            w += r.choice(["'", "''", "'s"])
+        words.append(w)
+    sep = '.' if dots else r.choice([' ', '_', ' '])
+    return S(sep.join(words))
+
+
+lit_kind('lit:str-long', 'str', [lambda c: _longstr(c, False, False)])
+lit_kind('lit:str-long-dots', 'str', [lambda c: _longstr(c, True, False)])
+lit_kind('lit:str-long-apos', 'str', [lambda c: _longstr(c, c.rnd.random() < 0.5, True)])
+
+
+@expr_kind('lit:str-long-in-concat', 'str')
+def _k(ctx, env):
+    return OP('+', atom(ctx, 'str', env), _longstr(ctx, True, False, 90))
+
+
+@expr_kind('lit:str-long-in-compare', 'bool')
+def _k(ctx, env):
+    return OP(ctx.rnd.choice(['=', '<>', 'like']), atom(ctx, 'str', env), _longstr(ctx, True, False, 90))
+
+
+# ---- aggregate initialisers
+@expr_kind('agg:empty', 'list')
+def _k(ctx, env):
+    return ('agg', ())
+
+
+@expr_kind('agg:ints', 'list')
+def _k(ctx, env):
+    return ('agg', tuple((I(ctx.rnd.choice([0, 1, 2, 5, 9, 100])), None) for _ in range(ctx.rnd.randrange(1, 7))))
+
+
+@expr_kind('agg:exprs', 'list')
+def _k(ctx, env):
+    return ('agg', tuple((gen(ctx, 'int', 2, env), None) for _ in range(ctx.rnd.randrange(1, 5))))
+
+
+@expr_kind('agg:rep', 'list')
+def _k(ctx, env):
+    r = ctx.rnd
+    items = [(I(r.randrange(2, 9)), I(r.randrange(2, 6)) if r.random() < 0.6 else None) for _ in range(r.randrange(1, 4))]
+    items[r.randrange(len(items))] = (I(r.randrange(2, 9)), I(r.randrange(2, 6)))
+    return ('agg', tuple(items))
+
+
+@expr_kind('agg:rep-expr-count', 'list', envs=('func', 'ent'))
+def _k(ctx, env):
+    return ('agg', ((I(5), OP('+', V('i1'), I(2))), (V('i2'), None)))
+
+
+@expr_kind('agg:long', 'list')
+def _k(ctx, env):
+    return ('agg', tuple((I(ctx.rnd.randrange(2, 100000)), None) for _ in range(ctx.rnd.randrange(20, 60))))
+
+
+# the count literal 0/1 is a shared parser node: probe carries a second, plain initialiser as the possible victim
+@kind('agg:rep-count-0-or-1')
+def _k(ctx):
+    c = ctx.rnd.choice([0, 1])
+    return Item('agg:rep-count-0-or-1', [
+        mk_func(ctx.nm('f'), [('assign', V('vli'), ('agg', ((I(5), I(c)),)))]),
+        mk_func(ctx.nm('g'), [('assign', V('vli'), ('agg', ((I(0), None), (I(1), None), (I(0), None), (I(1), None))))])], 'assign')
+
+
+@kind('agg:nested')
+def _k(ctx):
+    t = AGG('list', LIST_INT)
+    e = ('agg', ((('agg', ((I(2), None), (I(3), None))), None), (('agg', ((I(4), None),)), None)))
+    return Item('agg:nested', [('constant', ctx.nm('c'), t, e)], 'const')
+
+
+@kind('agg:strings')
+def _k(ctx):
+    e = ('agg', tuple((S(ctx.rnd.choice(SAFE_STRS)), None) for _ in range(ctx.rnd.randrange(1, 12))))
+    return Item('agg:strings', [('constant', ctx.nm('c'), LIST_STR, e)], 'const')
+
+
+@kind('agg:reals')
+def _k(ctx):
+    e = ('agg', tuple((RL(ctx.rnd.choice(SAFE_REALS)), None) for _ in range(ctx.rnd.randrange(1, 12))))
+    return Item('agg:reals', [('constant', ctx.nm('c'), LIST_REAL, e)], 'const')
+
+
+# ---- interval, query, calls, qualifiers
+@expr_kind('interval', 'bool')
+def _k(ctx, env):
+    r = ctx.rnd
+    return ('interval', atom(ctx, 'int', 'none'), r.choice(['<', '<=']), atom(ctx, 'int', env if env != 'none' else 'none'),
+            r.choice(['<', '<=']), I(r.randrange(100, 200)))
+
+
+@expr_kind('query', 'int', envs=('func', 'ent'))
+def _k(ctx, env):
+    q = ('query', 'q', atom(ctx, 'list', 'ent'), OP(ctx.rnd.choice(['>', '<', '=']), V('q'), atom(ctx, 'int', env)))
+    return CALL('sizeof', q)
+
+
+@expr_kind('query:nested', 'int', envs=('func', 'ent'))
+def _k(ctx, env):
+    inner = ('query', 'q2', V('li'), OP('>', V('q2'), V('q1')))
+    q = ('query', 'q1', V('li'), OP('=', CALL('sizeof', inner), I(0)))
+    return CALL('sizeof', q)
+
+
+@expr_kind('query:compound-cond', 'int', envs=('func', 'ent'))
+def _k(ctx, env):
+    c = OP('and', OP('>', V('q'), I(2)), OP('or', OP('<', V('q'), V('i1')), UN('not', V('b1'))))
+    return CALL('sizeof', ('query', 'q', V('li'), c))
+
+
+@expr_kind('call:builtin', 'int', envs=('func', 'ent'))
+def _k(ctx, env):
+    r = ctx.rnd
+    return r.choice([CALL('sizeof', V('li')), CALL('length', V('s1')), CALL('hiindex', V('li')), CALL('abs', V('i1')),
+                     CALL('blength', V('bn')), CALL('nvl', V('i1'), I(2)), CALL('loindex', V('li'))])
+
+
+@expr_kind('call:builtin-real', 'real')
+def _k(ctx, env):
+    a = atom(ctx, 'real', env)
+    return ctx.rnd.choice([CALL('sqrt', a), CALL('sin', a), CALL('atan', a, RL(2.5)), CALL('exp', a), CALL('log', a)])
+
+
+@expr_kind('call:builtin-bool', 'bool', envs=('func', 'ent'))
+def _k(ctx, env):
+    return ctx.rnd.choice([CALL('exists', V('i1')), CALL('odd', V('i2')), OP('in', S('X.Y'), CALL('typeof', V('i1')))])
+
+
+@kind('call:user')
+def _k(ctx):
+    callee = ctx.nm('g')
+    g = ('function', callee, ((False, 'a', INT), (False, 'b', REAL)), INT, (), (('return', OP('+', V('a'), I(2))),))
+    f = mk_func(ctx.nm('f'), [('assign', V('vi'), CALL(callee, gen(ctx, 'int', 1, 'func'), gen(ctx, 'real', 1, 'func')))])
+    return Item('call:user', [g, f], 'assign')
+
+
+@kind('call:user-noargs')
+def _k(ctx):
+    callee = ctx.nm('g')
+    g = ('function', callee, (), INT, (), (('return', I(7)),))
+    f = mk_func(ctx.nm('f'), [('assign', V('vi'), OP('+', V(callee), I(2)))])
+    return Item('call:user-noargs', [g, f], 'assign')
+
+
+def _ent2(ctx):
+    """two small entities: en (attributes a : INTEGER, lst : LIST OF INTEGER, nxt : OPTIONAL en) and a subtype"""
+    en, sub = ctx.nm('e'), ctx.nm('e')
+    e1 = mk_entity(en, attrs=[(V('a'), False, INT), (V('lst'), False, LIST_INT), (V('nxt'), True, NAMED(en))])
+    e2 = mk_entity(sub, attrs=[(V('b'), False, REAL)], subs=[en])
+    return en, sub, e1, e2
+
+
+@kind('call:constructor')
+def _k(ctx):
+    en = ctx.nm('e')
+    e = mk_entity(en, attrs=[(V('a'), False, INT), (V('b'), False, REAL)])
+    f = mk_func(ctx.nm('f'), [('assign', V('x'), CALL(en, gen(ctx, 'int', 1, 'func'), RL(2.5)))],
+                extra_locals=[('x', NAMED(en), None)])
+    return Item('call:constructor', [e, f], 'assign')
+
+
+@kind('op:||')
+def _k(ctx):
+    en, sub, e1, e2 = _ent2(ctx)
+    s3 = ctx.nm('e')
+    e3 = mk_entity(s3, attrs=[(V('c'), False, INT)], subs=[en])
+    e1 = e1[:3] + (OP('andor', V(sub), V(s3)),) + e1[4:]
+    f = mk_func(ctx.nm('f'), [('assign', V('x'), OP('||', OP('||', CALL(en, I(2), ('agg', ()), INDET), CALL(sub, RL(2.5))), CALL(s3, V('i1'))))],
+                extra_locals=[('x', NAMED(en), None)])
+    return Item('op:||', [e1, e2, e3, f], 'assign')
+
+
+def _qual_item(ctx, name, mk):
+    en, sub, e1, e2 = _ent2(ctx)
+    params = FPARAMS + ((False, 'p', NAMED(en)), (False, 'ps', NAMED(sub)))
+    lhs, e = mk(en, sub)
+    f = mk_func(ctx.nm('f'), [('assign', lhs, e)], params=params)
+    return Item(name, [e1, e2, f], 'assign')
+
+
+@kind('qual:attr')
+def _k(ctx):
+    return _qual_item(ctx, 'qual:attr', lambda en, sub: (V('vi'), OP('+', ('attr', V('p'), 'a'), I(2))))
+
+
+@kind('qual:attr-chain')
+def _k(ctx):
+    return _qual_item(ctx, 'qual:attr-chain', lambda en, sub: (V('vi'), ('attr', ('attr', ('attr', V('p'), 'nxt'), 'nxt'), 'a')))
+
+
+@kind('qual:group')
+def _k(ctx):
+    return _qual_item(ctx, 'qual:group', lambda en, sub: (V('vi'), ('attr', ('group', V('ps'), en), 'a')))
+
+
+@kind('qual:index')
+def _k(ctx):
+    return _qual_item(ctx, 'qual:index', lambda en, sub: (V('vi'), ctx.rnd.choice([
+        ('index', V('li'), OP('+', V('i1'), I(2))), ('index', ('attr', V('p'), 'lst'), I(2)),
+        OP('*', ('index', V('li'), I(1)), ('index', V('li'), V('i2')))])))
+
+
+@kind('qual:range')
+def _k(ctx):
+    return _qual_item(ctx, 'qual:range', lambda en, sub: (V('vs'), ctx.rnd.choice([
+        ('range', V('s1'), I(2), I(4)), ('range', V('s1'), V('i1'), OP('+', V('i1'), I(3))),
+        OP('+', ('range', V('s1'), I(1), I(2)), ('range', V('s2'), I(3), I(3)))])))
+
+
+@kind('qual:lhs')
+def _k(ctx):
+    return _qual_item(ctx, 'qual:lhs', lambda en, sub: ctx.rnd.choice([
+        (('index', V('vli'), I(2)), V('i1')), (('attr', V('p'), 'a'), V('i1')),
+        (('index', ('attr', V('p'), 'lst'), V('i2')), I(7)), (('attr', ('group', V('ps'), en), 'a'), I(3))]))
+
+
+@kind('qual:self-group')
+def _k(ctx):
+    en, sub, e1, e2 = _ent2(ctx)
+    e2 = mk_entity(sub, attrs=[(V('b'), False, REAL)], subs=[en],
+                   wh=[(ctx.nm('wr', False), OP('>', ('attr', ('group', SELF, en), 'a'), I(2)))])
+    return Item('qual:self-group', [e1, e2], 'where-ent')
+
+
+@kind('lit:self')
+def _k(ctx):
+    t = ('type', ctx.nm('t'), INT, ((ctx.nm('wr', False), OP('>', SELF, I(2))),))
+    return Item('lit:self', [t], 'type-where')
+
+
+@kind('enum:item-ref')
+def _k(ctx):
+    tn = ctx.nm('t')
+    items = tuple(ctx.nm('it', False) for _ in range(3))
+    t = ('type', tn, ('enum', items), ())
+    f = mk_func(ctx.nm('f'), [('assign', V('x'), V(items[1])), ('if', OP('=', V('x'), V(items[2])), (('assign', V('vi'), I(2)),), ())],
+                extra_locals=[('x', NAMED(tn), None)])
+    return Item('enum:item-ref', [t, f], 'assign')
+
+
+for _nm, _op, _ty in (('op:+:real', '+', 'real'), ('op:+:str', '+', 'str'), ('op:+:list', '+', 'list'),
+                      ('op:-:real', '-', 'real'), ('op:*:real', '*', 'real')):
+    def _mk(op=_op, ty=_ty):
+        def f(ctx, env):
+            return OP(op, gen(ctx, ty, ctx.rnd.randrange(2), env), gen(ctx, ty, ctx.rnd.randrange(2), env))
+        return f
+    expr_kind(_nm, _ty)(_mk())
+
+
+# ------------------------------------------------------------------ statements
+def stmt_kind(name, weight=1):
+    """builder(ctx) -> (statements, extra declarations, extra locals); hosted in a function or a procedure"""
+    def deco(f):
+        def build(ctx):
+            r = f(ctx)
+            ss, extra, loc = (r + ((), ()))[:3] if isinstance(r, tuple) and r and isinstance(r[0], list) else (r, (), ())
+            ss = list(ss)
+            c = ctx.rnd.randrange(4)
+            if c == 0:
+                d = mk_proc(ctx.nm('p'), ss, extra_locals=loc)
+                host = 'procedure'
+            elif c == 1:      # one level down
+                d = mk_func(ctx.nm('f'), [('if', V('b1'), tuple(ss), (('skip',),))], extra_locals=loc)
+                host = 'function-nested'
+            else:
+                d = mk_func(ctx.nm('f'), ss, extra_locals=loc)
+                host = 'function'
+            return Item(name, list(extra) + [d], host)
+        KINDS[name] = (build, weight)
+        return f
+    return deco
+
+
+def A(ctx, ty='int', depth=1):
+    return ('assign', V(LOCAL_OF[ty]), gen(ctx, ty, depth, 'func'))
+
+
+@stmt_kind('stmt:assign')
+def _k(ctx):
+    return [A(ctx, ctx.rnd.choice(['int', 'real', 'bool', 'str', 'list'])) for _ in range(ctx.rnd.randrange(1, 4))]
+
+
+@stmt_kind('stmt:if')
+def _k(ctx):
+    return [('if', gen(ctx, 'bool', 1, 'func'), (A(ctx), A(ctx, 'real')), ())]
+
+
+@stmt_kind('stmt:if-else')
+def _k(ctx):
+    return [('if', gen(ctx, 'bool', 1, 'func'), (A(ctx),), (A(ctx, 'str'), A(ctx)))]
+
+
+@stmt_kind('stmt:if-nested')
+def _k(ctx):
+    inner = ('if', V('b2'), (A(ctx),), (('if', V('b1'), (('skip',),), ()),))
+    return [('if', gen(ctx, 'bool', 1, 'func'), (inner,), (A(ctx),))]
+
+
+@stmt_kind('stmt:case')
+def _k(ctx):
+    r = ctx.rnd
+    acts = tuple(((I(n),), A(ctx)) for n in r.sample(range(2, 40), r.randrange(1, 5)))
+    return [('case', V('i1'), acts, None)]
+
+
+@stmt_kind('stmt:case-otherwise')
+def _k(ctx):
+    acts = tuple(((I(n),), A(ctx)) for n in (2, 3))
+    return [('case', OP('+', V('i1'), I(2)), acts, A(ctx, 'real'))]
+
+
+@stmt_kind('stmt:case-multi-label')
+def _k(ctx):
+    acts = (((I(2), I(3), I(5)), A(ctx)), ((I(7),), A(ctx)), ((I(11), I(13)), ('skip',)))
+    return [('case', V('i1'), acts, ('skip',) if ctx.rnd.random() < 0.5 else None)]
+
+
+@stmt_kind('stmt:case-expr-label')
+def _k(ctx):
+    acts = (((OP('+', V('i2'), I(2)),), A(ctx)), ((UN('-', I(3)),), A(ctx)))
+    return [('case', V('i1'), acts, None)]
+
+
+@stmt_kind('stmt:case-string-label')
+def _k(ctx):
+    acts = (((S('abc'),), A(ctx)), ((S('de f'),), A(ctx)))
+    return [('case', V('s1'), acts, ('null',))]
+
+
+@stmt_kind('stmt:case-compound-action')
+def _k(ctx):
+    acts = (((I(2),), ('compound', (A(ctx), A(ctx, 'real')))), ((I(3),), ('if', V('b1'), (A(ctx),), ())))
+    return [('case', V('i1'), acts, ('compound', (A(ctx),)))]
+
+
+def _rep(ctx, incr=None, wh=None, un=None, body=None):
+    return ('repeat', incr, wh, un, tuple(body or [('assign', V('vi'), OP('+', V('vi'), I(2)))]))
+
+
+@stmt_kind('stmt:repeat-incr')
+def _k(ctx):
+    return [_rep(ctx, ('k', I(1), gen(ctx, 'int', 1, 'func'), I(1)), body=[('assign', V('vi'), OP('+', V('vi'), V('k')))])]
+
+
+@stmt_kind('stmt:repeat-by')
+def _k(ctx):
+    by = ctx.rnd.choice([I(2), UN('-', I(1)), V('i2'), OP('+', V('i2'), I(2))])
+    return [_rep(ctx, ('k', V('i1'), I(100), by))]
+
+
+@stmt_kind('stmt:repeat-while')
+def _k(ctx):
+    return [_rep(ctx, None, gen(ctx, 'bool', 1, 'func'))]
+
+
+@stmt_kind('stmt:repeat-until')
+def _k(ctx):
+    return [_rep(ctx, None, None, gen(ctx, 'bool', 1, 'func'))]
+
+
+@stmt_kind('stmt:repeat-all')
+def _k(ctx):
+    return [_rep(ctx, ('k', I(2), CALL('sizeof', V('li')), I(3)), OP('<', V('vi'), I(100)), OP('>', V('vi'), I(50)),
+                 [('assign', V('vi'), OP('+', V('vi'), ('index', V('li'), V('k'))))])]
+
+
+@stmt_kind('stmt:repeat-bare')
+def _k(ctx):
+    return [_rep(ctx, body=[('assign', V('vi'), OP('+', V('vi'), I(2))), ('if', OP('>', V('vi'), I(10)), (('escape',),), ())])]
+
+
+@stmt_kind('stmt:escape')
+def _k(ctx):
+    return [_rep(ctx, None, V('b1'), None, [('escape',)])]
+
+
+@stmt_kind('stmt:skip')
+def _k(ctx):
+    return [_rep(ctx, ('k', I(1), I(10), I(1)), body=[('if', CALL('odd', V('k')), (('skip',),), ()), A(ctx)])]
+
+
+@stmt_kind('stmt:alias')
+def _k(ctx):
+    return [('alias', 'al', V('vli'), (('assign', V('al'), OP('+', V('al'), ('agg', ((I(2), None),)))),))]
+
+
+@kind('stmt:alias-qualified')
+def _k(ctx):
+    en, sub, e1, e2 = _ent2(ctx)
+    params = FPARAMS + ((False, 'p', NAMED(en)),)
+    st = ('alias', 'al', ctx.rnd.choice([('attr', V('p'), 'lst'), ('attr', ('attr', V('p'), 'nxt'), 'a')]),
+          (('assign', V('vi'), CALL('sizeof', V('li'))),))
+    return Item('stmt:alias-qualified', [e1, e2, mk_func(ctx.nm('f'), [st], params=params)], 'function')
+
+
+@stmt_kind('stmt:compound')
+def _k(ctx):
+    return [('compound', (A(ctx), A(ctx, 'bool')))]
+
+
+@stmt_kind('stmt:compound-nested')
+def _k(ctx):
+    return [('compound', (('compound', (A(ctx),)), A(ctx)))]
+
+
+@stmt_kind('stmt:null')
+def _k(ctx):
+    return [('null',), A(ctx), ('if', V('b1'), (('null',),), ())]
+
+
+@kind('stmt:return')
+def _k(ctx):
+    f = mk_func(ctx.nm('f'), [('if', V('b1'), (('return', gen(ctx, 'int', 2, 'func')),), ())])
+    return Item('stmt:return', [f], 'function')
+
+
+@kind('stmt:return-bare')
+def _k(ctx):
+    p = mk_proc(ctx.nm('p'), [('if', V('b1'), (('return', None),), ()), A(ctx)])
+    return Item('stmt:return-bare', [p], 'procedure')
+
+
+@kind('stmt:pcall')
+def _k(ctx):
+    pn = ctx.nm('p')
+    p = ('procedure', pn, ((True, 'o', INT), (False, 'a', INT), (False, 'b', STR)), None, (), (('assign', V('o'), V('a')),))
+    f = mk_func(ctx.nm('f'), [('pcall', pn, (V('vi'), gen(ctx, 'int', 1, 'func'), gen(ctx, 'str', 1, 'func')))])
+    return Item('stmt:pcall', [p, f], 'function')
+
+
+@kind('stmt:pcall-noargs')
+def _k(ctx):
+    pn = ctx.nm('p')
+    p = ('procedure', pn, ((False, 'a', INT),), None, (('z', INT, None),), (('assign', V('z'), V('a')),))
+    q = ctx.nm('p')
+    p0 = ('procedure', q, (), None, (('z', INT, None),), (('assign', V('z'), I(2)),))
+    f = mk_proc(ctx.nm('p'), [('pcall', q, ()), ('pcall', pn, (I(3),))])
+    return Item('stmt:pcall-noargs', [p, p0, f], 'procedure')
+
+
+@stmt_kind('stmt:pcall-builtin')
+def _k(ctx):
+    return [('pcall', 'insert', (V('vli'), gen(ctx, 'int', 1, 'func'), I(0))), ('pcall', 'remove', (V('vli'), I(1)))]
+
+
+# ------------------------------------------------------------------ declarations
+@kind('const:simple')
+def _k(ctx):
+    r = ctx.rnd
+    ds = [('constant', ctx.nm('c'), INT, I(r.randrange(2, 1000))), ('constant', ctx.nm('c'), STR, S(r.choice(SAFE_STRS))),
+          ('constant', ctx.nm('c'), REAL, RL(r.choice(SAFE_REALS))), ('constant', ctx.nm('c'), BOOL, TRUE)]
+    r.shuffle(ds)
+    return Item('const:simple', ds[:r.randrange(1, 5)], 'const')
+
+
+@kind('const:ref')
+def _k(ctx):
+    a, b = ctx.nm('c'), ctx.nm('c')
+    return Item('const:ref', [('constant', a, INT, I(12)), ('constant', b, INT, OP('*', V(a), OP('+', V(a), I(2))))], 'const')
+
+
+@kind('const:aggregate-type')
+def _k(ctx):
+    t = ctx.rnd.choice([AGG('set', INT, I(1), INDET), AGG('array', REAL, I(1), I(3)), AGG('bag', STR, I(0), I(5)),
+                        AGG('list', INT, I(0), INDET, uniq=True)])
+    e = {'integer': ('agg', ((I(2), None), (I(3), None), (I(4), None))), }.get(t[6][1]) if t[6][0] == 'simple' else None
+    if t[6] == REAL:
+        e = ('agg', ((RL(0.5), None), (RL(1.5), None), (RL(2.5), None)))
+    if t[6] == STR:
+        e = ('agg', ((S('a'), None), (S('b'), None)))
+    return Item('const:aggregate-type', [('constant', ctx.nm('c'), t, e)], 'const')
+
+
+@kind('const:defined-type')
+def _k(ctx):
+    tn = ctx.nm('t')
+    return Item('const:defined-type', [('type', tn, REAL, ()), ('constant', ctx.nm('c'), NAMED(tn), RL(2.5))], 'const')
+
+
+@kind('func:params')
+def _k(ctx):
+    r = ctx.rnd
+    tys = [INT, REAL, STR, BOOL, LOG, NUM, BINT, LIST_INT, AGG('set', REAL, I(1), INDET), AGG('array', INT, I(1), I(3)),
+           ('stringt', I(10), False), ('stringt', I(8), True), ('binaryt', I(16), False), ('realt', I(6)),
+           AGG('list', AGG('set', INT, I(0), I(4)), I(1), INDET), AGG('bag', STR)]
+    ps = []
+    for i in range(r.randrange(1, 9)):
+        t = r.choice(tys)
+        for j in range(r.choice([1, 1, 2, 3])):
+            ps.append((False, 'a%d_%d' % (i, j), t))
+    f = ('function', ctx.nm('f'), tuple(ps), r.choice(tys), (), (('return', INDET),))
+    return Item('func:params', [f], 'function')
+
+
+@kind('func:no-params')
+def _k(ctx):
+    return Item('func:no-params', [('function', ctx.nm('f'), (), INT, (('z', INT, I(2)),), (('return', V('z')),))], 'function')
+
+
+@kind('func:generic')
+def _k(ctx):
+    ps = ((False, 'a', ('generic', 'g1')), (False, 'b', ('aggregate', 'a1', ('generic', 'g1'))), (False, 'c', ('aggregate', None, INT)),
+          (False, 'd', ('generic', None)))
+    f = ('function', ctx.nm('f'), ps, ctx.rnd.choice([('generic', 'g1'), ('aggregate', 'a1', ('generic', 'g1'))]), (),
+         (('return', V('a') if True else None),))
+    return Item('func:generic', [f], 'function')
+
+
+@kind('func:local-init')
+def _k(ctx):
+    loc = [('x1', INT, gen(ctx, 'int', 2, 'none')), ('x2', STR, S('init')), ('x3', LIST_INT, ('agg', ())), ('x4', REAL, None),
+           ('x5', REAL, None), ('x6', BOOL, FALSE)]
+    f = ('function', ctx.nm('f'), ((False, 'a', INT),), INT, tuple(loc), (('return', OP('+', V('x1'), V('a'))),))
+    return Item('func:local-init', [f], 'function')
+
+
+@kind('func:nested')
+def _k(ctx):
+    outer, inner = ctx.nm('f'), ctx.nm('g', False)
+    g = ('function', inner, ((False, 'a', INT),), INT, (), (('return', OP('*', V('a'), I(2))),))
+    c = ('constant', ctx.nm('c', False), INT, I(42))
+    f = ('function', outer, ((False, 'q', INT),), INT, (('z', INT, None),),
+         (('assign', V('z'), OP('+', CALL(inner, V('q')), V(c[1]))), ('return', V('z'))))
+    return Item('func:nested', [f], 'function', nested={outer: [g, c]})
+
+
+@kind('func:local-entity-type')
+def _k(ctx):
+    outer, tn = ctx.nm('f'), ctx.nm('t', False)
+    t = ('type', tn, INT, ())
+    f = ('function', outer, ((False, 'q', INT),), INT, (('z', NAMED(tn), None),), (('assign', V('z'), V('q')), ('return', V('z'))))
+    return Item('func:local-entity-type', [f], 'function', nested={outer: [t]})
+
+
+@kind('proc:var')
+def _k(ctx):
+    r = ctx.rnd
+    ps = [(True, 'o1', INT), (True, 'o2', INT), (False, 'a', INT), (True, 'o3', LIST_INT), (False, 'b', INT), (False, 'c', REAL)]
+    r.shuffle(ps)
+    p = ('procedure', ctx.nm('p'), tuple(ps[:r.randrange(2, 7)]), None, (('z', INT, None),), (('assign', V('z'), I(2)),))
+    return Item('proc:var', [p], 'procedure')
+
+
+@kind('proc:no-params')
+def _k(ctx):
+    p = ('procedure', ctx.nm('p'), (), None, (('z', INT, None),), (('assign', V('z'), I(2)),))
+    return Item('proc:no-params', [p], 'procedure')
+
+
+@kind('proc:empty-body')
+def _k(ctx):
+    return Item('proc:empty-body', [('procedure', ctx.nm('p'), ((False, 'a', INT),), None, (), ())], 'procedure')
+
+
+def _rule(ctx, name, labels, stmts=False, n_ent=1):
+    ens = [ctx.nm('e') for _ in range(n_ent)]
+    es = [mk_entity(en, attrs=[(V('a'), False, INT)]) for en in ens]
+    wh = []
+    for lab in labels:
+        en = ctx.rnd.choice(ens)
+        wh.append((ctx.nm('wr', False) if lab else None,
+                   OP(ctx.rnd.choice(['=', '>=']), CALL('sizeof', ('query', 'q', V(en), OP('>', ('attr', V('q'), 'a'), I(ctx.rnd.randrange(2, 90))))), I(0))))
+    loc, body = (), ()
+    if stmts:
+        loc = (('cnt', INT, I(0)),)
+        body = (('repeat', ('k', I(1), CALL('sizeof', V(ens[0])), I(1)), None, None,
+                 (('assign', V('cnt'), OP('+', V('cnt'), ('attr', ('index', V(ens[0]), V('k')), 'a'))),)),)
+        wh.append((ctx.nm('wr', False), OP('<', V('cnt'), I(1000))))
+    return Item(name, es + [('rule', ctx.nm('r'), tuple(ens), loc, body, tuple(wh))], 'rule')
+
+
+@kind('rule:where-labelled')
+def _k(ctx):
+    return _rule(ctx, 'rule:where-labelled', [True] * ctx.rnd.randrange(1, 4))
+
+
+@kind('rule:where-unlabelled')
+def _k(ctx):
+    return _rule(ctx, 'rule:where-unlabelled', [False] * ctx.rnd.randrange(1, 3))
+
+
+@kind('rule:statements')
+def _k(ctx):
+    return _rule(ctx, 'rule:statements', [], stmts=True)
+
+
+@kind('rule:multi-entity')
+def _k(ctx):
+    return _rule(ctx, 'rule:multi-entity', [True, True], n_ent=ctx.rnd.randrange(2, 5))
+
+
+ATTR_TYPES = [INT, REAL, STR, BOOL, LOG, NUM, BINT, ('stringt', I(20), False), ('stringt', I(4), True), ('binaryt', I(8), True),
+              ('realt', I(4)), LIST_INT, AGG('list', STR, I(1), INDET), AGG('set', REAL, I(0), I(5)), AGG('bag', INT, I(2), INDET),
+              AGG('array', INT, I(1), I(3)), AGG('array', REAL, UN('-', I(1)), I(1)), AGG('list', AGG('list', REAL, I(2), I(2)), I(1), INDET)]
+
+
+@kind('entity:attrs')
+def _k(ctx):
+    r = ctx.rnd
+    attrs = [(V(ctx.nm('at')), False, r.choice(ATTR_TYPES)) for _ in range(r.randrange(1, 8))]
+    return Item('entity:attrs', [mk_entity(ctx.nm('e'), attrs=attrs)], 'entity')
+
+
+@kind('entity:attrs-same-type-run')
+def _k(ctx):
+    t = ctx.rnd.choice(ATTR_TYPES)
+    attrs = [(V(ctx.nm('at', False)), False, t) for _ in range(ctx.rnd.randrange(2, 6))]
+    return Item('entity:attrs-same-type-run', [mk_entity(ctx.nm('e'), attrs=attrs)], 'entity')
+
+
+@kind('entity:optional')
+def _k(ctx):
+    r = ctx.rnd
+    attrs = [(V(ctx.nm('at')), r.random() < 0.6, r.choice(ATTR_TYPES)) for _ in range(r.randrange(2, 6))]
+    attrs[0] = (attrs[0][0], True, attrs[0][2])
+    return Item('entity:optional', [mk_entity(ctx.nm('e'), attrs=attrs)], 'entity')
+
+
+@kind('entity:aggr-flags')
+def _k(ctx):
+    attrs = [(V('u1'), False, AGG('list', INT, I(1), INDET, uniq=True)),
+             (V('o1'), False, AGG('array', INT, I(1), I(5), opt=True)),
+             (V('ou'), False, AGG('array', STR, I(0), I(2), opt=True, uniq=True)),
+             (V('u2'), True, AGG('array', REAL, I(1), I(2), uniq=True))]
+    ctx.rnd.shuffle(attrs)
+    return Item('entity:aggr-flags', [mk_entity(ctx.nm('e'), attrs=attrs[:ctx.rnd.randrange(1, 5)])], 'entity')
+
+
+@kind('entity:bound-exprs')
+def _k(ctx):
+    c = ctx.nm('c')
+    attrs = [(V('b1'), False, AGG('list', INT, I(1), V(c))), (V('b2'), False, AGG('array', REAL, OP('-', V(c), I(2)), OP('*', V(c), I(2)))),
+             (V('b3'), False, ('stringt', OP('+', V(c), I(2)), False))]
+    return Item('entity:bound-exprs', [('constant', c, INT, I(5)), mk_entity(ctx.nm('e'), attrs=attrs)], 'entity')
+
+
+@kind('entity:entity-typed-attrs')
+def _k(ctx):
+    a, b = ctx.nm('e'), ctx.nm('e')
+    tn = ctx.nm('t')
+    ea = mk_entity(a, attrs=[(V('x'), False, INT)])
+    t = ('type', tn, ('select', (a,)), ())
+    eb = mk_entity(b, attrs=[(V('r1'), False, NAMED(a)), (V('r2'), True, AGG('set', NAMED(a), I(1), INDET)), (V('r3'), False, NAMED(tn)),
+                             (V('r4'), False, NAMED(b))])
+    return Item('entity:entity-typed-attrs', [ea, t, eb], 'entity')
+
+
+@kind('entity:derive')
+def _k(ctx):
+    r = ctx.rnd
+    der = [(V(ctx.nm('d', False)), INT, gen(ctx, 'int', 2, 'ent')), (V(ctx.nm('d', False)), STR, gen(ctx, 'str', 1, 'ent')),
+           (V(ctx.nm('d', False)), BOOL, gen(ctx, 'bool', 2, 'ent')), (V(ctx.nm('d', False)), LIST_INT, gen(ctx, 'list', 1, 'ent'))]
+    r.shuffle(der)
+    return Item('entity:derive', [mk_entity(ctx.nm('e'), derive=der[:r.randrange(1, 5)])], 'entity')
+
+
+@kind('entity:derive-only')
+def _k(ctx):
+    return Item('entity:derive-only', [mk_entity(ctx.nm('e'), attrs=(), derive=[(V('d1'), INT, I(7)), (V('d2'), INT, OP('+', V('d1'), I(2)))])], 'entity')
+
+
+def _inv(ctx, name, mk):
+    a, b = ctx.nm('e'), ctx.nm('e')
+    eb = mk_entity(b, attrs=[(V('ref'), False, NAMED(a)), (V('refs'), False, AGG('set', NAMED(a), I(1), INDET))])
+    ea = mk_entity(a, attrs=[(V('x'), False, INT)], inverse=mk(b))
+    return Item(name, [ea, eb], 'entity')
+
+
+@kind('entity:inverse')
+def _k(ctx):
+    r = ctx.rnd
+    return _inv(ctx, 'entity:inverse', lambda b: [(V('inv1'), r.choice([AGG('set', NAMED(b), I(0), I(1)), AGG('bag', NAMED(b), I(1), INDET), AGG('set', NAMED(b))]), 'ref')])
+
+
+@kind('entity:inverse-single')
+def _k(ctx):
+    return _inv(ctx, 'entity:inverse-single', lambda b: [(V('inv1'), NAMED(b), 'ref')])
+
+
+@kind('entity:inverse-several')
+def _k(ctx):
+    return _inv(ctx, 'entity:inverse-several', lambda b: [(V('inv1'), AGG('set', NAMED(b), I(0), INDET), 'ref'), (V('inv_second'), AGG('bag', NAMED(b)), 'refs')])
+
+
+@kind('entity:all-clauses')
+def _k(ctx):
+    a, b = ctx.nm('e'), ctx.nm('e')
+    eb = mk_entity(b, attrs=[(V('ref'), False, NAMED(a))])
+    ea = mk_entity(a, attrs=[(V('x'), False, INT), (V('y'), True, STR)], derive=[(V('d'), INT, OP('+', V('x'), I(2)))],
+                   inverse=[(V('inv1'), AGG('set', NAMED(b), I(0), INDET), 'ref')], unique=[('ur1', (V('x'),))],
+                   wh=[('wr1', OP('>', V('x'), I(2)))])
+    return Item('entity:all-clauses', [ea, eb], 'entity')
+
+
+def _uniq(ctx, name, labels):
+    attrs = [(V('k%d' % i), False, ctx.rnd.choice([INT, STR])) for i in range(4)]
+    un = []
+    for lab in labels:
+        n = ctx.rnd.randrange(1, 4)
+        un.append((ctx.nm('ur', False) if lab else None, tuple(V('k%d' % i) for i in ctx.rnd.sample(range(4), n))))
+    return Item(name, [mk_entity(ctx.nm('e'), attrs=attrs, unique=un)], 'entity')
+
+
+@kind('entity:unique-labelled')
+def _k(ctx):
+    return _uniq(ctx, 'entity:unique-labelled', [True] * ctx.rnd.randrange(1, 4))
+
+
+@kind('entity:unique-unlabelled')
+def _k(ctx):
+    return _uniq(ctx, 'entity:unique-unlabelled', [False] * ctx.rnd.randrange(1, 3))
+
+
+@kind('entity:unique-mixed')
+def _k(ctx):
+    return _uniq(ctx, 'entity:unique-mixed', ctx.rnd.choice([[True, False], [False, True], [True, False, True]]))
+
+
+@kind('entity:unique-qualified')
+def _k(ctx):
+    sup, sub = ctx.nm('e'), ctx.nm('e')
+    e1 = mk_entity(sup, attrs=[(V('a'), False, INT)])
+    e2 = mk_entity(sub, attrs=[(V('b'), False, INT)], subs=[sup],
+                   unique=[('ur1', (('attr', ('group', SELF, sup), 'a'), V('b')))])
+    return Item('entity:unique-qualified', [e1, e2], 'entity')
+
+
+def _wh(ctx, name, labels):
+    wh = [(ctx.nm('wr', False) if lab else None, gen(ctx, 'bool', 2, 'ent')) for lab in labels]
+    return Item(name, [mk_entity(ctx.nm('e'), wh=wh)], 'entity')
+
+
+@kind('entity:where-labelled')
+def _k(ctx):
+    return _wh(ctx, 'entity:where-labelled', [True] * ctx.rnd.randrange(1, 4))
+
+
+@kind('entity:where-unlabelled')
+def _k(ctx):
+    return _wh(ctx, 'entity:where-unlabelled', [False] * ctx.rnd.randrange(1, 3))
+
+
+@kind('entity:where-mixed')
+def _k(ctx):
+    return _wh(ctx, 'entity:where-mixed', ctx.rnd.choice([[True, False], [False, True]]))
+
+
+@kind('entity:where-long-label')
+def _k(ctx):
+    wh = [('wr_' + 'x' * ctx.rnd.choice([12, 30]), gen(ctx, 'bool', 2, 'ent')), ('w', gen(ctx, 'bool', 1, 'ent'))]
+    return Item('entity:where-long-label', [mk_entity(ctx.nm('e'), wh=wh)], 'entity')
+
+
+def _super(ctx, name, mk, abstract=False, n=4):
+    sup = ctx.nm('e')
+    subs = [ctx.nm('e') for _ in range(n)]
+    e = mk_entity(sup, attrs=[(V('a'), False, INT)], abstract=abstract, sup=mk([V(s) for s in subs]) if mk else None)
+    return Item(name, [e] + [mk_entity(s, attrs=[(V('b'), False, INT)], subs=[sup]) for s in subs], 'entity')
+
+
+@kind('entity:supertype-oneof')
+def _k(ctx):
+    return _super(ctx, 'entity:supertype-oneof', lambda s: ('oneof', tuple(s)), n=ctx.rnd.randrange(2, 7))
+
+
+@kind('entity:supertype-and')
+def _k(ctx):
+    return _super(ctx, 'entity:supertype-and', lambda s: OP('and', s[0], s[1]), n=2)
+
+
+@kind('entity:supertype-andor')
+def _k(ctx):
+    return _super(ctx, 'entity:supertype-andor', lambda s: OP('andor', OP('andor', s[0], s[1]), s[2]), n=3)
+
+
+@kind('entity:supertype-single')
+def _k(ctx):
+    return _super(ctx, 'entity:supertype-single', lambda s: s[0], n=1)
+
+
+@kind('entity:supertype-nested')
+def _k(ctx):
+    forms = [lambda s: OP('andor', ('oneof', (s[0], s[1])), OP('and', s[2], s[3])),
+             lambda s: OP('and', ('oneof', (s[0], s[1])), ('oneof', (s[2], s[3]))),
+             lambda s: ('oneof', (s[0], OP('and', s[1], s[2]), s[3])),
+             lambda s: OP('and', OP('andor', s[0], s[1]), OP('andor', s[2], s[3])),
+             lambda s: OP('andor', s[0], OP('andor', s[1], OP('and', s[2], s[3])))]
+    return _super(ctx, 'entity:supertype-nested', ctx.rnd.choice(forms), abstract=ctx.rnd.random() < 0.4)
+
+
+@kind('entity:abstract')
+def _k(ctx):
+    return _super(ctx, 'entity:abstract', None, abstract=True, n=2)
+
+
+@kind('entity:abstract-of')
+def _k(ctx):
+    return _super(ctx, 'entity:abstract-of', lambda s: ('oneof', tuple(s)), abstract=True, n=3)
+
+
+@kind('entity:subtype-multi')
+def _k(ctx):
+    sups = [ctx.nm('e') for _ in range(ctx.rnd.randrange(2, 6))]
+    es = [mk_entity(s, attrs=[(V('a_' + s), False, INT)]) for s in sups]
+    return Item('entity:subtype-multi', es + [mk_entity(ctx.nm('e'), attrs=[(V('z'), False, INT)], subs=sups)], 'entity')
+
+
+@kind('entity:supertype-and-subtype')
+def _k(ctx):
+    a, b, c = ctx.nm('e'), ctx.nm('e'), ctx.nm('e')
+    return Item('entity:supertype-and-subtype', [
+        mk_entity(a, attrs=[(V('x'), False, INT)]), mk_entity(b, attrs=(), sup=('oneof', (V(c),)), subs=[a], abstract=ctx.rnd.random() < 0.5),
+        mk_entity(c, attrs=(), subs=[b])], 'entity')
+
+
+@kind('entity:redeclared-attr')
+def _k(ctx):
+    sup, sub, tn = ctx.nm('e'), ctx.nm('e'), ctx.nm('t')
+    t = ('type', tn, INT, ())
+    e1 = mk_entity(sup, attrs=[(V('a'), True, NUM), (V('n'), False, INT)])
+    e2 = mk_entity(sub, attrs=[(('attr', ('group', SELF, sup), 'a'), False, INT)], subs=[sup])
+    return Item('entity:redeclared-attr', [t, e1, e2], 'entity')
+
+
+@kind('entity:derived-redeclared')
+def _k(ctx):
+    sup, sub = ctx.nm('e'), ctx.nm('e')
+    e1 = mk_entity(sup, attrs=[(V('a'), False, INT), (V('n'), False, INT)])
+    e2 = mk_entity(sub, attrs=(), subs=[sup], derive=[(('attr', ('group', SELF, sup), 'a'), INT, OP('*', ('attr', ('group', SELF, sup), 'n'), I(2)))])
+    return Item('entity:derived-redeclared', [e1, e2], 'entity')
+
+
+@kind('entity:empty')
+def _k(ctx):
+    return Item('entity:empty', [mk_entity(ctx.nm('e'), attrs=())], 'entity')
+
+
+@kind('type:simple')
+def _k(ctx):
+    r = ctx.rnd
+    ts = [INT, REAL, STR, BOOL, LOG, NUM, BINT]
+    return Item('type:simple', [('type', ctx.nm('t'), r.choice(ts), ()) for _ in range(r.randrange(1, 4))], 'type')
+
+
+@kind('type:width')
+def _k(ctx):
+    ts = [('stringt', I(10), False), ('stringt', I(3), True), ('binaryt', I(8), False), ('binaryt', I(32), True), ('realt', I(8))]
+    return Item('type:width', [('type', ctx.nm('t'), ctx.rnd.choice(ts), ())], 'type')
+
+
+@kind('type:aggregate')
+def _k(ctx):
+    ts = [t for t in ATTR_TYPES if t[0] == 'aggr']
+    return Item('type:aggregate', [('type', ctx.nm('t'), ctx.rnd.choice(ts), ())], 'type')
+
+
+@kind('type:renamed')
+def _k(ctx):
+    a, b, c = ctx.nm('t'), ctx.nm('t'), ctx.nm('t')
+    return Item('type:renamed', [('type', a, REAL, ()), ('type', b, NAMED(a), ()), ('type', c, AGG('list', NAMED(b), I(1), I(3)), ())], 'type')
+
+
+@kind('type:enum')
+def _k(ctx):
+    n = ctx.rnd.choice([1, 2, 3, 5, 30])
+    return Item('type:enum', [('type', ctx.nm('t'), ('enum', tuple(ctx.nm('en_it') for _ in range(n))), ())], 'type')
+
+
+@kind('type:select')
+def _k(ctx):
+    n = ctx.rnd.choice([1, 2, 3, 12])
+    ens = [ctx.nm('e') for _ in range(n)]
+    tn = ctx.nm('t')
+    inner = ('type', tn, INT, ())
+    items = tuple(ens) + ((tn,) if ctx.rnd.random() < 0.5 else ())
+    return Item('type:select', [mk_entity(e, attrs=[(V('x'), False, INT)]) for e in ens] + [inner, ('type', ctx.nm('t'), ('select', items), ())], 'type')
+
+
+def _twh(ctx, name, labels):
+    wh = tuple((ctx.nm('wr', False) if lab else None, OP(ctx.rnd.choice(['>', '<>', '>=']), SELF, I(ctx.rnd.randrange(2, 99)))) for lab in labels)
+    return Item(name, [('type', ctx.nm('t'), ctx.rnd.choice([INT, REAL, NUM]), wh)], 'type')
+
+
+@kind('type:where-labelled')
+def _k(ctx):
+    return _twh(ctx, 'type:where-labelled', [True] * ctx.rnd.randrange(1, 4))
+
+
+@kind('type:where-unlabelled')
+def _k(ctx):
+    return _twh(ctx, 'type:where-unlabelled', [False] * ctx.rnd.randrange(1, 3))
+
+
+@kind('type:where-mixed')
+def _k(ctx):
+    return _twh(ctx, 'type:where-mixed', [True, False])
+
+
+@kind('type:where-aggregate')
+def _k(ctx):
+    wh = ((ctx.nm('wr', False), OP('=', CALL('sizeof', ('query', 'q', SELF, OP('<', V('q'), I(2)))), I(0))),
+          (ctx.nm('wr', False), OP('>', ('index', SELF, I(1)), I(2))))
+    return Item('type:where-aggregate', [('type', ctx.nm('t'), AGG('list', INT, I(1), I(3)), wh)], 'type')
+
+
+# ---- interfaces: the library schema holds what is imported
+def _lib_decls(ctx, n):
+    ens = [ctx.nm('le') for _ in range(n)]
+    fn, cn, tn = ctx.nm('lf'), ctx.nm('lc'), ctx.nm('lt')
+    lib = [mk_entity(e, attrs=[(V('x'), False, INT)]) for e in ens]
+    lib.append(('function', fn, ((False, 'a', INT),), INT, (), (('return', OP('+', V('a'), I(2))),)))
+    lib.append(('constant', cn, INT, I(99)))
+    lib.append(('type', tn, STR, ()))
+    return ens, fn, cn, tn, lib
+
+
+def _iface(name, what, listed, alias):
+    @kind(name)
+    def _k(ctx):
+        ens, fn, cn, tn, lib = _lib_decls(ctx, ctx.rnd.randrange(1, 5))
+        items = (('*', None),)
+        names = {e: e for e in ens}
+        names[tn] = tn
+        if listed:
+            pool = list(ens) + [tn] + ([fn, cn] if what == 'reference' else [])
+            items = []
+            for n in pool:
+                al = ctx.nm('al') if alias and ctx.rnd.random() < 0.6 else None
+                items.append((n, al))
+                names[n] = al or n
+            if alias and not any(a for _, a in items):
+                items[0] = (items[0][0], ctx.nm('al'))
+                names[items[0][0]] = items[0][1]
+            items = tuple(sorted(items, key=repr))
+        user = mk_entity(ctx.nm('e'), attrs=[(V('r%d' % i), False, NAMED(names[e])) for i, e in enumerate(ens)] + [(V('s'), False, NAMED(names[tn]))])
+        return Item(name, [user], 'schema', interfaces=[(what, None, items)], lib=lib)
+
+
+_iface('use:all', 'use', False, False)
+_iface('use:items', 'use', True, False)
+_iface('use:as', 'use', True, True)
+_iface('reference:all', 'reference', False, False)
+_iface('reference:items', 'reference', True, False)
+_iface('reference:as', 'reference', True, True)
+
+
+# ------------------------------------------------------------------ schemas
+class Schema(object):
+    """model of one generated file: main schema (+ optional library schema)"""
+
+    def __init__(self, name, items, style):
+        self.name = name
+        self.items = list(items)
+        self.style = style
+        self.lib = name + '_lib'
+
+    def has_lib(self):
+        return any(it.lib for it in self.items)
+
+    def subset(self, idx):
+        return Schema(self.name, [self.items[i] for i in idx], self.style)
+
+    def model(self):
+        """{key: tree}, {key: item index} exactly as c07_ref.parse() keys the text"""
+        m, owner = {((), 'schema', self.name): ('schema', self.name)}, {}
+        if self.has_lib():
+            m[((), 'schema', self.lib)] = ('schema', self.lib)
+        for i, it in enumerate(self.items):
+            for d in it.decls:
+                k = ((self.name,), d[0], d[1])
+                m[k] = d
+                owner[k] = i
+            for alg, ds in it.nested.items():
+                for d in ds:
+                    k = ((self.name, alg), d[0], d[1])
+                    m[k] = d
+                    owner[k] = i
+            for d in it.lib:
+                k = ((self.lib,), d[0], d[1])
+                m[k] = d
+                owner[k] = i
+            for what, _, items in it.interfaces:
+                k = ((self.name,), what, self.lib)
+                old = m.get(k)
+                its = tuple(sorted(set(items) | set(old[2] if old else ()), key=repr))
+                m[k] = (what, self.lib, its)
+                owner[k] = i
+        return m, owner
+
+    def text(self, seed=0):
+        st = Style(random.Random('c07style/%s/%s' % (self.name, seed)), plain=self.style == 'plain') if isinstance(self.style, str) else self.style
+        r = st.rnd
+        out = []
+        for sch, body in ((self.lib, 'lib'), (self.name, 'main')):
+            if body == 'lib' and not self.has_lib():
+                continue
+            em = Emitter(st)
+            em.k('schema')
+            em.name(sch)
+            em.o(';')
+            em.nl()
+            decls = []
+            for it in self.items:
+                if body == 'lib':
+                    decls += [(d, None) for d in it.lib]
+                else:
+                    for what, _, items in it.interfaces:
+                        em.interface((what, self.lib, items))
+                    decls += [(d, it.nested) for d in it.decls]
+            consts = [d for d, _ in decls if d[0] == 'constant']
+            if consts:
+                em.constants(consts)
+            rest = [(d, n) for d, n in decls if d[0] != 'constant']
+            if not st.plain:
+                r.shuffle(rest)
+            for d, n in rest:
+                em.decl(d, n)
+            em.k('end_schema')
+            em.o(';')
+            em.tail(sch)
+            out.append(em.text())
+        return '\n'.join(out) + '\n'
+
+
+def make_item(kind_name, rnd, tag=''):
+    return KINDS[kind_name][0](Ctx(rnd, tag))
+
+
+def random_schema(rnd, name, n_items, masked=()):
+    """n_items items of random kinds outside `masked` (a set of kind names with an open finding)"""
+    pool = [(k, w) for k, (f, w) in sorted(KINDS.items()) if k not in masked]
+    ctx = Ctx(rnd)
+    items = []
+    lib_used = False
+    tries = 0
+    while len(items) < n_items and tries < 10 * n_items:
+        tries += 1
+        k = rnd.choices([p[0] for p in pool], [p[1] for p in pool])[0]
+        if k.startswith(('use:', 'reference:')):
+            if lib_used:
+                continue
+            lib_used = True
+        items.append(KINDS[k][0](ctx))
+    return Schema(name, items, Style(random.Random(rnd.random())))
+
+
+def probe_schema(kind_name, variant=0):
+    """fixed schema holding just that construct: depends on (kind, variant) only, never on the run's seed"""
+    rnd = random.Random('c07probe/%s/%d' % (kind_name, variant))
+    it = make_item(kind_name, rnd)
+    nm = 'probe_' + ''.join(c if c.isalnum() else '_' for c in kind_name).strip('_').lower() + '_%d' % variant
+    return Schema(nm, [it], Style(random.Random(0), plain=True))
